@@ -569,6 +569,150 @@ pub fn huge_strategy(_t: Tier) -> BoxedStrategy<HugeTs> {
     (prop_oneof![2 => 50u8..56, 2 => 60u8..70, 1 => 70u8..200], any::<u16>(), any::<bool>()).prop_map(|(exp2, frac, audio)| HugeTs { exp2, frac, audio }).boxed()
 }
 
+// ---- (e) the 4 GiB limits: mdat size field and 32-bit chunk offsets
+
+#[derive(Clone, Debug, Serialize, Deserialize, PartialEq, Eq, Hash)]
+pub struct LimitCase {
+    pub fast_start: bool,
+    pub audio: bool,
+    /// total media payload = 2^32 - below bytes
+    pub below: u32,
+}
+
+pub fn limit_cases(t: Tier) -> Vec<LimitCase> {
+    let mut v = vec![
+        // mdat payload of 2^32 - 4 bytes: the 8-byte header no longer fits the 32-bit box size (moov at the end)
+        LimitCase { fast_start: false, audio: false, below: 4 },
+        // mdat box fits (8 + payload = 2^32 - 101) but ftyp + moov in front push the last chunk offsets beyond 2^32
+        LimitCase { fast_start: true, audio: true, below: 109 },
+    ];
+    if t == Tier::Thorough {
+        v.push(LimitCase { fast_start: false, audio: true, below: 9 }); // 8 + payload = 2^32 - 1: fits exactly
+        v.push(LimitCase { fast_start: false, audio: true, below: 8 }); // one byte too many
+        v.push(LimitCase { fast_start: true, audio: false, below: 4000 }); // single chunk: everything fits
+        v.push(LimitCase { fast_start: true, audio: true, below: 1 << 20 }); // comfortably below: must succeed
+    }
+    v
+}
+
+static LIMIT_LOCK: std::sync::Mutex<()> = std::sync::Mutex::new(());
+
+pub fn eval_limit(c: &LimitCase) -> Outcome {
+    use crate::exec::{build_muxer, guarded};
+    let _serial = LIMIT_LOCK.lock().unwrap_or_else(|e| e.into_inner()); // ~9 GiB per case: one at a time
+    let mut o = Outcome::default();
+    o.nontrivial = true;
+    struct Shared(std::sync::Arc<std::sync::Mutex<Vec<u8>>>);
+    impl std::io::Write for Shared {
+        fn write(&mut self, b: &[u8]) -> std::io::Result<usize> {
+            self.0.lock().unwrap().extend_from_slice(b);
+            Ok(b.len())
+        }
+        fn flush(&mut self) -> std::io::Result<()> {
+            Ok(())
+        }
+    }
+    let target: u64 = (1u64 << 32) - c.below as u64;
+    let n_frames = 64u64;
+    let key_hdr = crate::gen::Vp9Key { profile: 0, byte4: 0, sync: 0, width: 320, height: 240, wlen: 2, hlen: 2, render: None, color: Some((0, None)), tail: 0 }.build(1).0;
+    let delta_hdr = vec![0x49u8, 0x83, 0x42, 0x10];
+    let audio_pkts: Vec<Vec<u8>> = if c.audio {
+        (0..20u64).map(|i| crate::gen::OpusGene { config: 4, stereo: false, code: 0, count_byte: 0, len: 40 + (i % 7) as u16, corrupt: 0 }.build((9u64 << 60) | i).0).collect()
+    } else {
+        vec![]
+    };
+    let audio_total: u64 = audio_pkts.iter().map(|p| p.len() as u64).sum();
+    let video_total = target - audio_total;
+    let base = video_total / n_frames;
+    let frame_len = |i: u64| -> usize { (if i + 1 == n_frames { video_total - base * (n_frames - 1) } else { base }) as usize };
+    // frame i: codec header, a 16-byte tag, then the constant byte (i + 1)
+    let frame = |i: u64| -> Vec<u8> {
+        let hdr = if i == 0 { &key_hdr } else { &delta_hdr };
+        let mut v = Vec::with_capacity(frame_len(i));
+        v.extend_from_slice(hdr);
+        v.extend_from_slice(&crate::gen::filler(16, (0xcu64 << 60) | i, 0));
+        v.resize(frame_len(i), (i + 1) as u8);
+        v
+    };
+    let out = std::sync::Arc::new(std::sync::Mutex::new(Vec::<u8>::with_capacity(target as usize + (4 << 20))));
+    let mut cfg = CCfg::basic(3);
+    cfg.audio = if c.audio { 7 } else { 0 };
+    cfg.channels = 1;
+    cfg.fast_start = Some(c.fast_start);
+    let sink = Shared(out.clone());
+    let res = guarded(|| -> Result<Result<(), String>, String> {
+        let mut m = build_muxer(sink, &cfg).map_err(|e| format!("build: {}", e))?;
+        for i in 0..n_frames {
+            let f = frame(i);
+            m.write_video(i as f64 / 30.0, &f, i == 0).map_err(|e| format!("write_video {}: {}", i, e))?;
+            if let Some(p) = audio_pkts.get(i as usize) {
+                m.write_audio(i as f64 / 30.0, p).map_err(|e| format!("write_audio {}: {}", i, e))?;
+            }
+        }
+        Ok(m.finish_in_place().map_err(|e| format!("{}", e)))
+    });
+    let fin = match res {
+        Err(p) => {
+            o.aborted_by_panic = Some(p);
+            return o;
+        }
+        Ok(Err(e)) => {
+            o.class(&format!("write_rejected:{}", &e[..e.len().min(40)]));
+            return o;
+        }
+        Ok(Ok(f)) => f,
+    };
+    let tag = format!("{}{}.below={}", if c.fast_start { "fast_start" } else { "moov_last" }, if c.audio { "+audio" } else { "" }, c.below);
+    match fin {
+        Err(e) => {
+            // an error is the right answer when something does not fit; far below the limit it is spurious
+            o.class("finish_returned_error");
+            if c.below >= 1 << 20 {
+                o.fail("spurious_error", format!("spurious_error.finish.{}", tag), format!("finish failed ({}) although the file stays {} bytes below 4 GiB", e, c.below));
+            }
+        }
+        Ok(()) => {
+            let bytes = out.lock().unwrap();
+            match parse(&bytes) {
+                Err(e) => o.fail("box_size", format!("box_size.unparseable.{}", tag), format!("finish returned Ok for a {}-byte payload but the file does not parse (a wrapped size or offset): {}", target, e)),
+                Ok(p) => {
+                    let mut bad = None;
+                    if let Some(vt) = video_track(&p.movie) {
+                        if vt.samples.len() as u64 != n_frames {
+                            bad = Some(format!("{} video samples in the tables, {} written", vt.samples.len(), n_frames));
+                        }
+                        for (i, sm) in vt.samples.iter().enumerate() {
+                            let want = frame(i as u64);
+                            let off = sm.offset as usize;
+                            if sm.size as usize != want.len() || off.checked_add(want.len()).map(|e| e > bytes.len()).unwrap_or(true) || bytes[off..off + want.len()] != want[..] {
+                                bad = Some(format!("video sample {}: tables give offset {} size {}, its {} bytes are not there", i, sm.offset, sm.size, want.len()));
+                                break;
+                            }
+                        }
+                    }
+                    if bad.is_none() {
+                        if let Some(at) = audio_track(&p.movie) {
+                            for (i, sm) in at.samples.iter().enumerate() {
+                                let want = &audio_pkts[i];
+                                let off = sm.offset as usize;
+                                if off.checked_add(want.len()).map(|e| e > bytes.len()).unwrap_or(true) || bytes[off..off + want.len()] != want[..] {
+                                    bad = Some(format!("audio sample {}: tables give offset {}, its bytes are not there", i, sm.offset));
+                                    break;
+                                }
+                            }
+                        }
+                    }
+                    if let Some(b) = bad {
+                        o.fail("stco", format!("stco.offset.near_4GiB.{}", tag), b);
+                    }
+                    o.class("finish_ok_near_4GiB");
+                }
+            }
+        }
+    }
+    o
+}
+
 pub fn def() -> PropertyDef {
     PropertyDef {
         fuzz_targets: &[],
@@ -580,12 +724,18 @@ pub fn def() -> PropertyDef {
                ticks; oracle: either some call returned an error and the value really does not fit, or every field read back with its declared width \
                equals the exact value recomputed from the history. Non-trivial = exact value within +-2 (or beyond) a field limit, or a recording of more than 1 024 samples (long_recordings: counts beyond 2^10..2^20)",
         assumptions: &[
-            "NOT explored: the 4 GiB limits (box size, mdat size, chunk offset > u32) - they need > 4 GiB of sample data per case",
+            "the 4 GiB limits (mdat size, chunk offset > u32) are probed by the fixed list `four_gib_limit` only (two cases in the quick tier), not searched",
             "progressive tkhd width/height are judged by C19 through its shifted decoder (listed finding), here only the sample entry",
         ],
         subs: vec![
             Box::new(PSub { name: "durations_and_offsets", quick: 20000, thorough: 600000, strat: timeline_strategy, eval: eval_timeline }),
             Box::new(LSub { name: "long_recordings", cases: long_cases_all, eval: eval_timeline, note: LONG_NOTE }),
+            Box::new(LSub {
+                name: "four_gib_limit",
+                cases: limit_cases,
+                eval: eval_limit,
+                note: "fixed list: 64 VP9 frames (+ Opus) whose payload ends 4 .. 2^20 bytes below 2^32 (2 cases quick, 6 thorough; ~9 GiB of memory each, one at a time): either finish returns an error, or the mdat size and every chunk offset are exact",
+            }),
             Box::new(PSub { name: "fields_around_2^16", quick: 6000, thorough: 150000, strat: fields_strategy, eval: eval_fields }),
             Box::new(PSub { name: "fragmented_boundaries", quick: 12000, thorough: 300000, strat: fragnum_strategy, eval: eval_fragnum }),
             Box::new(PSub { name: "huge_timestamps", quick: 4000, thorough: 80000, strat: huge_strategy, eval: eval_huge }),
